@@ -62,16 +62,16 @@ func (cp *Checkpoint) Destroy() error {
 }
 
 func (cp *Checkpoint) Document() checkpointDocument {
-	if len(cp.WALs) > 1 {
-		panic("should not serialize a checkpoint with multiple WALs")
-	}
 	doc := checkpointDocument{
 		ID:         cp.ID,
 		Levels:     cp.Levels.Document(),
 		LastSeqNum: cp.LastSeqNum,
 	}
-	if len(cp.WALs) == 1 {
-		doc.WALs = []wal.HandleDocument{cp.WALs[0].Document()}
+	// A checkpoint composed from the checkpoints of several instances (loaded
+	// after scaling in) has one WAL per instance and stays retained until the
+	// job drops it, so it is serialized with all of them.
+	for _, h := range cp.WALs {
+		doc.WALs = append(doc.WALs, h.Document())
 	}
 
 	return doc
